@@ -96,12 +96,13 @@ def transformations(rng, ds):
     cols = [ds.columns[int(i)] for i in rng.permutation(len(ds.columns))]
     out.append(("static-column-order+uppercase", dict(column_order=cols, column_spelling=lambda a, b: "C%d%d" % (a, b))))
     out.append(("static-column-spelling", dict(column_spelling=lambda a, b: "c_%d%d" % (a, b) if (a + b) % 2 else "c%d%d%d%d" % (T.VOIGT_TO_PAIR[a] + T.VOIGT_TO_PAIR[b]))))
-    out.append(("static-row-order", dict(row_order=list(rng.permutation(nv)))))
+    ns = len(ds.static_volumes)
+    out.append(("static-row-order", dict(row_order=list(rng.permutation(ns)))))
     out.append(("volume-blocks-reversed", dict(volume_order=list(range(nv))[::-1])))
     out.append(("volume-blocks-shuffled", dict(volume_order=list(rng.permutation(nv)))))
     if nq > 2:
         out.append(("q+modes+weights+columns+rows", dict(q_order=[0] + list(1 + rng.permutation(nq - 1)), mode_perm=perms,
-                                                        weight_scale=float(10 ** rng.uniform(-2, 2)), column_order=cols, row_order=list(rng.permutation(nv)))))
+                                                        weight_scale=float(10 ** rng.uniform(-2, 2)), column_order=cols, row_order=list(rng.permutation(ns)))))
     return out
 
 
